@@ -555,7 +555,7 @@ def run(ctx):
                         ctx.sample(dict(case='binop', cls=c, op=op, m=m, n=n), limit=8)
             # objects holding many values (a batch path, a chunk size, a preallocated buffer would show here), with repeated
             # values among them (drawn from a pool of three: coincidences of equal elements)
-            huge_ = int([2000, 2048, 2500][rng.integers(3)] if ctx.tier == 'quick' else [2000, 2048, 2500, 4096, 10007][rng.integers(5)])
+            huge_ = int([2000, 2048, 2500, 17000][rng.integers(4)] if ctx.tier == 'quick' else [2000, 2048, 2500, 4096, 10007, 20011, 40009][rng.integers(7)])
             for m, n in ((16, 16), (17, 1), (1, 33), (64, 64), (16, 17), (8, 8), (100, 1), (128, 128), (128, 129), (256, 300), (129, 128), (257, 1), (1, 256),
                          (huge_, huge_), (1, huge_), (huge_, 1), (huge_, huge_ + 1)):
                 i += 1
